@@ -143,6 +143,59 @@ def nontrivial_c14(s):
     return False
 
 
+# ---------------------------------------------------------------------------------------------- hooks vs Cancel
+def hook_part(ctx):
+    """spec/HookCancel.tla (operations iterating the hook list under the read lock vs RegisteredHook.Cancel): TLC
+    checks the code-shaped variant, refutes the regression variant (iteration without the lock), and behaviours of
+    both become schedules for harness/cmd/hookx (hooks are gates); HookTrace/HookAbs judges the recorded events."""
+    import json as _json
+    quick = ctx.tier == "quick"
+    inv = ["NoCallAfterCancel", "AtMostOncePerOp", "InOrder", "Complete"]
+
+    def hc(nh, cancels, nops, hold):
+        return {"NHooks": nh, "Cancels": "{%s}" % ", ".join(str(c) for c in cancels), "NOps": nops, "HoldLock": hold}
+    for nh, cs, no in ([(3, (2,), 2)] if quick else [(3, (2,), 2), (3, (1, 3), 2), (4, (2, 3), 2)]):
+        ctx.tlc("HookCancel", cfg_text=vlib.cfg_text(constants=hc(nh, cs, no, True), invariants=inv, properties=["AllDone"]),
+                timeout=1800)
+    r = ctx.tlc("HookCancel", cfg_text=vlib.cfg_text(constants=hc(3, (2,), 2, False), invariants=inv), timeout=900,
+                want_ok=False, count=False)
+    if not r.violated:
+        raise vlib.Inconclusive("HookCancel: the variant without the lock was not refuted (model insensitive)")
+    cfgs = [(3, (2,), 2, True), (3, (2,), 2, False), (3, (1, 3), 2, False), (4, (2, 3), 2, False), (3, (1,), 3, False)]
+    per = 12 if quick else 80
+
+    def one(a):
+        k, (nh, cs, no, hold) = a
+        rr = ctx.tlc("HookCancelGen", cfg_text=vlib.cfg_text(spec="GenSpec", constants=hc(nh, cs, no, hold)), mode="simulate",
+                     num=per, depth=80, seed=ctx.seed * 433 + k, timeout=600, count=False)
+        return rr.emitted()
+    scripts = []
+    for part in ctx.pmap(one, list(enumerate(cfgs))):
+        for i, g in enumerate(part):
+            scripts.append({"hooks": g["hooks"], "cancels": sorted(g["cancels"]), "ops": g["ops"],
+                            "kind": "put" if i % 3 else "get", "policy": g["policy"]})
+    binp = ctx.go_build("hookx")
+    res = vlib.drive(ctx, binp, scripts, chunk=1, timeout=60)
+    hists, owner = [], []
+    for i, rr in enumerate(res):
+        if rr["crashed"]:
+            ctx.violation("hooks:crash", "hookx died: %s" % rr["crashed"][:600], {"script": scripts[i], "hookx": True})
+            continue
+        evs = rr["events"]
+        for e in evs:
+            e.pop("h", None)
+            e.pop("seq", None)
+        hists.append(evs)
+        owner.append(i)
+    ok, rej, unex = vlib.validate(ctx, "HookTrace", "HookTrace.cfg", hists)
+    for hi, ej, ev in rej:
+        what = ev.get("e")
+        ctx.violation("hooks:%s:%s" % (what, scripts[owner[hi]]["kind"]),
+                      "event %d rejected by HookAbs: %s\ntrace: %s" % (ej, _json.dumps(ev), _json.dumps(hists[hi][:ej + 1])[:2000]),
+                      {"script": scripts[owner[hi]], "hookx": True, "observed": hists[hi]})
+    return {"hook_schedules": len(scripts), "hook_schedules_accepted": ok, "hook_unexamined": unex}
+
+
 def run(ctx):
     quick = ctx.tier == "quick"
     ctx.go_build(DRIVER)
@@ -161,7 +214,7 @@ def run(ctx):
     def part_conc(c):
         sc = conc_scripts(c)
         return sc, run_conc(c, sc)
-    mc, (sims, sscripts, sstat), (cscripts, cstat) = ctx.pmap(lambda f: f(ctx), [part_mc, part_sim, part_conc], par=3)
+    mc, (sims, sscripts, sstat), (cscripts, cstat), hstat = ctx.pmap(lambda f: f(ctx), [part_mc, part_sim, part_conc, hook_part], par=4)
     distinct = len({vlib.sha({k: s[k] for k in ("steps", "backend", "typed", "shadow", "cachei", "queries")})
                     for s in sscripts if nontrivial_c14(s)}) + \
         len({vlib.sha({k: s[k] for k in ("policy", "cancels", "sameq", "backend", "wkinds")}) for s in cscripts})
@@ -169,8 +222,9 @@ def run(ctx):
     sameobj = sum(1 for s in sscripts if len([st["q"] for st in s["steps"] if st["op"] in ("Subscribe", "RegisterHook")]) >
                   len({(st["op"], st["q"]) for st in s["steps"] if st["op"] in ("Subscribe", "RegisterHook")}))
     vlib.finish(ctx, LEVEL, {
-        "traces_validated_against_impl": sstat["accepted"] + cstat["accepted"],
-        "evaluations": len(sscripts) + len(cscripts), "distinct_nontrivial": distinct,
+        "traces_validated_against_impl": sstat["accepted"] + cstat["accepted"] + hstat["hook_schedules_accepted"],
+        "evaluations": len(sscripts) + len(cscripts) + hstat["hook_schedules"], "distinct_nontrivial": distinct,
+        "hooks_vs_cancel": hstat,
         "rule": "histories: TLC -simulate of spec/RecordAccessGen.tla (flavour c14: subscribe/cancel, hook register/cancel, "
                 "put/delete/insert/flag/expiry calls by interfaces of every privilege combination, pushed updates of an injected "
                 "database, database-API subscriptions, one burst beyond the feed buffer), one backend each; non-trivial = a write "
@@ -202,6 +256,20 @@ def replay(ctx, path):
     with open(path) as fh:
         doc = json.load(fh)
     script = doc["replay"]["script"]
+    if doc["replay"].get("hookx"):
+        binp = ctx.go_build("hookx")
+        res = vlib.drive(ctx, binp, [script], chunk=1, timeout=60)
+        evs = res[0]["events"]
+        for e in evs:
+            e.pop("h", None)
+            e.pop("seq", None)
+        if res[0]["crashed"]:
+            ctx.violation(doc["signature"], "replay: hookx died", doc["replay"])
+        ok, rej, _ = vlib.validate(ctx, "HookTrace", "HookTrace.cfg", [evs])
+        for hi, ej, ev in rej:
+            ctx.violation(doc["signature"], "replay: event %d rejected: %s" % (ej, json.dumps(ev)), doc["replay"])
+        vlib.finish(ctx, LEVEL, {"states": 1, "transitions": 1, "traces_validated_against_impl": ok, "samples": [script]},
+                    ["replay of one hook schedule"])
     if script.get("mode") == "conc":
         st = run_conc(ctx, [script])
     else:
